@@ -681,11 +681,18 @@ def run_file_case(ctx, case, n):
             if [o["record"] for x in xs for o in x] != [r for r, _ in mrecs]:
                 ctx.disagree("c09.writefile vs c09.writex(rm=true)", case, "writeFile", "writeChromX true")
     else:
-        xs = ctx.model.ask_many([{"op": "c09.writex", "rm": False, "cfg": dict(cfg, targets=ts),
+        import inspect
+        from whatshap.vcf import PhasedVcfWriter
+        # fixes/F65.patch present in the working tree?  (keep mode: a call phased anew first loses its old phase information)
+        f65 = "self._remove_existing_phasing(record, [sample])" in inspect.getsource(PhasedVcfWriter.write)
+        ctx.dist("file_keep_mode_code", "F65-fixed" if f65 else "as-coded")
+        xs = ctx.model.ask_many([{"op": "c09.writex", "rm": False, "f65": f65, "cfg": dict(cfg, targets=ts),
                                   "records": [R.model_record(recs[i], psamples) for i in idxs]} for (c, ts), (_, idxs) in zip(plan, blocks)])
         mrecs = [(o["record"], None) for x in xs for o in x]
         merr = any(o["err"] for x in xs for o in x)
-    if err and err.startswith("crash:"):
+    if err and err.startswith("refused:"):
+        ctx.observe("PhasedVcfWriter refuses the input file: " + err[8:60])
+    elif err and err.startswith("crash:"):
         h.fail(f"PhasedVcfWriter.write raises {err[6:]}", "writer-crash", "W")
     elif err or merr:
         if bool(err) != bool(merr):
@@ -778,16 +785,85 @@ def file_writer_oracle(h, case, rin, rout, samples, targets, plan, rm, tag, only
         h.ctx.nontrivial(("file-write", case["gen_seed"]))
 
 
+# ------------------------------------------------------------------------------------------------
+# F65: haplotagphase (the writer with remove_existing_phasing=False) on a file phased with --tag HP
+# ------------------------------------------------------------------------------------------------
+
+def run_haplotagphase_case(ctx, case, n):
+    """phase --tag T -> haplotag -> every second phased call unphased -> haplotagphase: the output must not carry both
+    encodings in one call and whatshap must be able to read it.  On /repo without fixes/F65.patch this fails for T = HP (the
+    writer tags an HP-phased call with PS without removing HP); it is haplotagphase's behaviour (C17's command), so it is
+    recorded as an observation until the patch is in the working tree and checked as a regression from then on."""
+    import gzip, inspect, random
+    import pysam
+    from whatshap.vcf import PhasedVcfWriter
+    f65 = "self._remove_existing_phasing(record, [sample])" in inspect.getsource(PhasedVcfWriter.write)
+    d = os.path.join(ctx.workdir(), f"case{n}")
+    shutil.rmtree(d, ignore_errors=True)
+    os.makedirs(d)
+    rng = random.Random(case["gen_seed"])
+    sc = sim.Scenario(rng, n_variants=(6, 10), depth=(5, 8), read_len=(150, 300))
+    fa, bam, vcf = sc.write(d)
+    tag = case["tag"]
+
+    def run(args):
+        rc, so, se, _ = R.run_whatshap(ctx, args)
+        ctx.evaluated()
+        return rc, se
+    ok = run(["phase", "--tag", tag, "-r", fa, "-o", d + "/ph.vcf", vcf, bam])[0] == 0
+    if ok:
+        pysam.tabix_index(d + "/ph.vcf", preset="vcf", force=True)
+        ok = run(["haplotag", "-r", fa, "-o", d + "/tag.bam", d + "/ph.vcf.gz", bam])[0] == 0
+    if ok:
+        pysam.index(d + "/tag.bam")
+        lines, k = [], 0
+        for line in gzip.open(d + "/ph.vcf.gz", "rt"):
+            if not line.startswith("#"):
+                c = line.rstrip("\n").split("\t")
+                keys, v = c[8].split(":"), c[9].split(":")
+                if tag == "HP" and "HP" in keys and v[keys.index("HP")] not in (".", ""):
+                    k += 1
+                    if k % 2 == 0:
+                        v[keys.index("HP")] = "."
+                elif tag == "PS" and "|" in v[0]:
+                    k += 1
+                    if k % 2 == 0:
+                        v[0] = "/".join(sorted(v[0].split("|")))
+                        v[keys.index("PS")] = "."
+                c[9] = ":".join(v); line = "\t".join(c) + "\n"
+            lines.append(line)
+        open(d + "/part.vcf", "w").write("".join(lines))
+        pysam.tabix_index(d + "/part.vcf", preset="vcf", force=True)
+        rc, se = run(["haplotagphase", "-r", fa, "-o", d + "/re.vcf", d + "/part.vcf.gz", d + "/tag.bam"])
+        ok = rc == 0
+    ctx.dist("haplotagphase_after_tag", tag + ("" if ok else "/no-run"))
+    if ok:
+        _, samples, recs = R.load_vcf(d + "/re.vcf")
+        both = [r["pos"] + 1 for r in recs if all(x is not None for x in indep_decode(r, 0))]
+        wr = whatshap_read(d + "/re.vcf", samples[0], False)
+        if both or isinstance(wr, tuple):
+            what = (f"phase --tag {tag} -> haplotag -> partial unphase -> haplotagphase: calls at {both[:6]} carry HP and a phased GT/PS "
+                    f"at once; whatshap's reader on the output: {wr[1] if isinstance(wr, tuple) else 'ok'}")
+            if f65:
+                ctx.fail(what, case, key="haplotagphase-mixed")
+            else:
+                ctx.observe("F65 (fixes/F65.patch not in the working tree): haplotagphase on HP-encoded input writes both encodings into "
+                            "one call; whatshap rejects the output with MixedPhasingError")
+        elif any(v is not None for v in wr.values()):
+            ctx.nontrivial(("haplotagphase", case["gen_seed"], tag))
+    shutil.rmtree(d, ignore_errors=True)
+
+
 def run(ctx):
     cases = [c for _, c in ctx.corpus()]
     if ctx.replay:
         cases = [json.load(open(ctx.replay))["case"]]
     n = 0
     for c in cases:
-        {"interleaved": run_interleaved, "file": run_file_case}.get(c.get("kind"), run_case)(ctx, c, n); n += 1
+        {"interleaved": run_interleaved, "file": run_file_case, "haplotagphase": run_haplotagphase_case}.get(c.get("kind"), run_case)(ctx, c, n); n += 1
     if ctx.replay:
         return
-    streams = os.environ.get("C09_STREAMS", "hist,inter,table,file").split(",")     # development aid: run a subset of the streams
+    streams = os.environ.get("C09_STREAMS", "hist,inter,table,file,htp").split(",")     # development aid: run a subset of the streams
     for _ in range((8 if ctx.quick else 60) * ctx.scale if "hist" in streams else 0):
         run_case(ctx, gen_case(ctx.rng, scale=1 if ctx.quick else 2), n); n += 1
     # generator-written phase inputs with interleaved / nested phase sets: run Q + in-process pseudo reads
@@ -797,6 +873,8 @@ def run(ctx):
         run_interleaved(ctx, gen_interleaved_case(ctx.rng, cli=False), n); n += 1
     for _ in range((80 if ctx.quick else 2500) * ctx.scale if "file" in streams else 0):
         run_file_case(ctx, gen_file_case(ctx.rng, ctx.quick), n); n += 1
+    for k in range((2 if ctx.quick else 20) * ctx.scale if "htp" in streams else 0):
+        run_haplotagphase_case(ctx, {"kind": "haplotagphase", "gen_seed": ctx.rng.randrange(1 << 40), "tag": ["HP", "PS"][k % 2]}, n); n += 1
     if os.environ.get("C09_DEBUG"):                     # development aid: all disagreements, not only the first
         import collections
         cnt = collections.Counter(op for op, _, _, _ in ctx.disagreements)
